@@ -56,7 +56,9 @@ Range2 == { [Dim(r, v, [F0 EXCEPT !.kind = "range"]) EXCEPT !.sid = m.sid, !.tok
 \* as a full handshake and as a ticket resumption
 Hrr == { Dim(r, 4, [F0 EXCEPT !.kind = k, !.resume = (k = "hrr-resume")]) : r \in Roles \cap (IF 4 \in Versions THEN Roles ELSE {}),
                                                                             k \in {"hrr", "hrr-resume"} }
-Cases == Base \cup Groups \cup Creds13 \cup Creds12 \cup Alpn \cup Resume \cup ClientAuth \cup NoCommon \cup Range2 \cup Hrr \cup GroupsEc
+\* post-handshake client authentication requested (twice) by an OpenSSL server from a tlslite-ng client
+Pha == { Dim("tlc", 4, [F0 EXCEPT !.kind = "pha", !.cauth = TRUE]) : x \in (IF 4 \in Versions THEN {1} ELSE {}) }
+Cases == Pha \cup Base \cup Groups \cup Creds13 \cup Creds12 \cup Alpn \cup Resume \cup ClientAuth \cup NoCommon \cup Range2 \cup Hrr \cup GroupsEc
 
 ExpectedAlpn(c) == CASE c.alpn = "none" -> "" [] c.alpn = "overlap" -> "h2" [] c.alpn = "first" -> "http/1.1" [] OTHER -> "-"
 
